@@ -273,7 +273,9 @@ def gen(tier, seed, algo):
         # overlapping candidates only
         if float(np.linalg.norm(A.t - B.t)) > (A.size() + B.size()) / 2 + 1:
             continue
-        for lk in ("id", rng.choice(("scale", "rigid"))):
+        # a third of the scenes is also placed small and far from the origin (300 .. 900 units: absolute tolerances that are
+        # scaled with the magnitude of the coordinates - seed C08-9 - or lost in their rounding)
+        for lk in ("id", rng.choice(("scale", "rigid"))) + (("farsmall",) if rng.random() < 0.33 else ()):
             lift = NW.random_lift(rng, A, B, lk)
             for X, Y in ((A, B), (B, A)):
                 clsX, clsY = rng.choice(X.classes()), rng.choice(Y.classes())
